@@ -75,6 +75,10 @@ def count_eq(rows, x, cols, extra=None):
     return "(+ 0 %s)" % " ".join(terms) if terms else "0"
 
 
+SUFFIX_PROGRAMS = ["SELECT amount FROM preorders WHERE amount > 0", "SELECT p.amount AS pa, o.amount AS oa FROM preorders AS p JOIN orders AS o ON p.user_id = o.user_id",
+                   "SELECT p.amount AS pa, u.age AS age FROM preorders AS p JOIN users AS u ON p.owner = u.id"]
+
+
 def main():
     tier = sys.argv[1] if len(sys.argv) > 1 else "quick"
     ck = Check(PID, tier, "translation_validation")
@@ -83,8 +87,12 @@ def main():
     driver.build()
     path, _ = mir.dump_mir()
     fns = mir.parse_mir(path)
-    tabs = pucat.tables(K)
-    pus = pucat.pu_defs()
+    # a further protected table whose name has another protected table's name as a string suffix (`preorders` / `orders`),
+    # with its own, different, privacy-unit definition listed after the shorter name
+    tabs = pucat.tables(K) + [dict(name="preorders", size=[0, K], fields=[pucat.f("id", driver.t_int((0, 9)), "PrimaryKey"), pucat.f("user_id", driver.t_int((0, 5))), pucat.f("owner", driver.t_int((0, 5))),
+                                                                          pucat.f("amount", driver.t_float((-10.0, 50.0)))])]
+    pus = dict(pucat.pu_defs())
+    pus["suffix-names"] = dict(tables=list(pus["chain"]["tables"]) + [dict(table="preorders", path=[], field="owner")], hash=False)
     configs = [("chain", "pup_hard"), ("chain", "pup_soft"), ("own-column", "pup_hard")] if tier == "quick" else [(p, m) for p in pus for m in ("pup_hard", "pup_soft")]
     jobs, keys = [], []
     import random as _random
@@ -95,6 +103,10 @@ def main():
         if q not in seen:
             seen.add(q)
             extra.append(q)
+    for sql in SUFFIX_PROGRAMS:
+        for mode in ("pup_hard", "pup_soft"):
+            jobs.append(dict(op="rewrite", mode=mode, tables=tabs, privacy_unit=pus["suffix-names"], dp=dict(epsilon=1.0, delta=1e-3), synthetic=False, sql=sql, render=True))
+            keys.append((sql, "suffix-names", mode))
     for sql in list(PROGRAMS) + extra:
         for pun, mode in configs:
             jobs.append(dict(op="rewrite", mode=mode, tables=tabs, privacy_unit=pus[pun], dp=dict(epsilon=1.0, delta=1e-3), synthetic=False, sql=sql, render=True))
